@@ -38,8 +38,9 @@ META = {
              "(Properties/ExecCascade); in the product model of the whole tree (Model/ExecNet) under every global schedule: a child's or handler's Shutdown begins only after its parent's Shutdown has "
              "returned (tree_cascade_any_global_schedule), no closed channel is ever sent on or closed twice anywhere (tree_no_panic_any_global_schedule), nothing is left in any channel at quiescence "
              "(tree_drained_any_global_schedule), and the drain cannot get stuck: once the source has finished either every node is terminal or some worker can take a step "
-             "(tree_drain_cannot_get_stuck). Source shape pinned by skeleton equalities for runNode, startWorkers, Execute, waitTimeout, superviseSource, Shutdown. Real runs are judged by sequence stamps.",
-        note="Trusted as C01, plus H-async. Progress (no deadlock) is proved; that the enabled steps are eventually taken (fair scheduler, node code returns) is observed on real runs (watchdog), not proved.",
+             "(tree_drain_cannot_get_stuck), and it terminates under every scheduler: a ranking function strictly decreases with every step of a tree node, so any continuation after the source's "
+             "end is bounded in length and ends with every node terminal (tree_drain_terminates). Source shape pinned by skeleton equalities for runNode, startWorkers, Execute, waitTimeout, superviseSource, Shutdown. Real runs are judged by sequence stamps.",
+        note="Trusted as C01, plus H-async. Progress and termination of the drain are proved for the model; that node code returns from the calls the model's steps stand for is an assumption (a node that never returns is C17's subject) and Execute returning is also observed on real runs (watchdog).",
     ),
     "C04": dict(
         text="Proof: ledger invariants of the component model under every interleaving: offered = enqueued + dropped (counting form), nothing is ever dropped at a non-discarding target, every drop "
